@@ -86,14 +86,38 @@ def implies_le(g, small_pred, big_pred):
     return False
 
 
+def copy_sites(f):
+    """raw memory copies in f, normalised over their spellings: (loc, dst operand, src operand, count operand, overlapping?)"""
+    out = []
+    for loc, t in f.calls():
+        n = t.get('callee') or ''
+        if f.blocks[loc[0]]['cleanup'] or len(t['args']) != 3:
+            continue
+        last = n.rsplit('::', 1)[-1]
+        a = t['args']
+        if last == 'copy_from':
+            out.append((loc, a[0], a[1], a[2], True))
+        elif last == 'copy_to':
+            out.append((loc, a[1], a[0], a[2], True))
+        elif last == 'copy_from_nonoverlapping':
+            out.append((loc, a[0], a[1], a[2], False))
+        elif last == 'copy_to_nonoverlapping':
+            out.append((loc, a[1], a[0], a[2], False))
+        elif n in ('std::ptr::copy', 'std::intrinsics::copy', 'core::ptr::copy'):
+            out.append((loc, a[1], a[0], a[2], True))
+        elif n in ('std::ptr::copy_nonoverlapping', 'std::intrinsics::copy_nonoverlapping', 'core::ptr::copy_nonoverlapping'):
+            out.append((loc, a[1], a[0], a[2], False))
+    return out
+
+
 def r2_bounded_accesses(r, facts):
     # ---- extend_from_slice
     f = facts.fn(RB + '::extend_from_slice')
     eb = ExprBuilder(f, multi='phi')
-    copies = [(loc, t) for loc, t in f.calls() if (t.get('callee') or '').endswith('copy_from_nonoverlapping')]
-    if r.require(len(copies) == 1, 'extend_from_slice', 'copy_from_nonoverlapping not found', f.where()):
-        loc, t = copies[0]
-        dst, src, cnt = eb.operand(t['args'][0]), eb.operand(t['args'][1]), strip(eb.operand(t['args'][2]))
+    copies = copy_sites(f)
+    if r.require(len(copies) == 1, 'extend_from_slice', 'expected one raw copy into the buffer in extend_from_slice, found %d' % len(copies), f.where()):
+        loc, a_dst, a_src, a_cnt, _ov = copies[0]
+        dst, src, cnt = eb.operand(a_dst), eb.operand(a_src), strip(eb.operand(a_cnt))
         is_other_len = lambda e: e[0] == 'call' and e[1] == 'core::slice::<impl [T]>::len' and e[2][0][0] == 'arg' and e[2][0][2] == 'other'
         is_new_len = lambda e: e[0] == 'bin' and e[1].startswith('Add') and ((owned_len(e[2]) and is_other_len(strip(e[3]))) or (owned_len(e[3]) and is_other_len(strip(e[2]))))
         gs = guard_edges(f, loc, eb)
@@ -107,9 +131,10 @@ def r2_bounded_accesses(r, facts):
     # ---- remove
     g = facts.fn(RB + '::remove')
     eg = ExprBuilder(g, multi='leaf')
-    copies = [(loc, t) for loc, t in g.calls() if (t.get('callee') or '').endswith('::copy_from')]
-    if r.require(len(copies) == 1, 'remove', 'copy_from not found in remove', g.where()):
-        loc, t = copies[0]
+    copies = copy_sites(g)
+    if r.require(len(copies) == 1, 'remove', 'expected one raw copy in remove, found %d' % len(copies), g.where()):
+        loc, a_dst, a_src, a_cnt, overlapping = copies[0]
+        r.require(overlapping, 'remove/overlap', 'remove moves bytes within one buffer with a non-overlapping copy', g.where(loc))
         gs = guard_edges(g, loc, eg)
         nm = lambda n: (lambda e: e[0] == 'local' and e[2] == n)
         ok1 = any(implies_le(x, nm('start'), nm('end')) for x in gs)
@@ -117,7 +142,7 @@ def r2_bounded_accesses(r, facts):
         r.inst('remove: copy guarded by start<=end: %s, end<=len: %s' % (ok1, ok2), g.where(loc))
         r.require(ok1, 'remove/guard-order', 'the copy in remove is not dominated by `start <= end`', g.where(loc))
         r.require(ok2, 'remove/guard-end', 'the copy in remove is not dominated by `end <= len` (reads past the initialised bytes)', g.where(loc))
-        dst, src, cnt = eg.operand(t['args'][0]), eg.operand(t['args'][1]), strip(eg.operand(t['args'][2]))
+        dst, src, cnt = eg.operand(a_dst), eg.operand(a_src), strip(eg.operand(a_cnt))
         def off_of(e):
             a = [x for x in subexprs(e) if x[0] == 'call' and x[1].endswith('::add')]
             return strip(a[0][2][1]) if a else None
@@ -220,7 +245,7 @@ def r3_validate_first(r, facts):
     g = facts.fn(RB + '::remove')
     eg = ExprBuilder(g, multi='leaf')
     stores = [loc for f, loc, kind, e in c08.owned_writers(facts) if f is g and kind == 'store']
-    copies = [loc for loc, t in g.calls() if (t.get('callee') or '').endswith('::copy_from')]
+    copies = [c_[0] for c_ in copy_sites(g)]
     panics = [loc for loc, t in g.calls() if (t.get('callee') or '').startswith('core::panicking::') or (t.get('callee') or '').startswith('std::rt::panic') or (t.get('callee') or '') == 'std::rt::begin_panic']
     r.require(len(stores) == 1 and len(copies) == 1, 'remove/sites', 'store/copy sites not found', g.where())
     nm = lambda n: (lambda e: e[0] == 'local' and e[2] == n)
